@@ -629,7 +629,7 @@ def run(chk: Check):
         traces += _b1(chk, dict(base, RelPids="{1}", UnrelPids="{}", MaxRcv=3, MaxSends=1, MaxUnrel=1,
                                 Ticks="{%d, %d, %d}" % (every - 1, every, 1), Depth=9), "edge-times", 211)
     _b2(chk, traces, "b1-histories", budget, every)
-    n_walks, length = (48, 150) if quick else (320, 300)
+    n_walks, length = (32, 150) if quick else (320, 300)
     per = max(1, n_walks // (common.NCPU * 2))
     jobs = [(chk.rng.randrange(1 << 30), per, length, every) for _ in range(n_walks // per)]
     walks = [t for r in common.parallel_map(_walks_chunk, jobs) for t in r]
